@@ -3,5 +3,5 @@
 cd "$(dirname "$0")" || exit 2
 export GOFLAGS=-mod=mod GOPROXY=off GOSUMDB=off GOTOOLCHAIN=local
 mkdir -p bin evidence replays
-./build.sh || exit 2
+VERIF_RACE=1 ./build.sh || exit 2
 echo "setup ok"
